@@ -7,6 +7,8 @@ NOTES = (
     "exit 2 for machinery failures. Known findings: KNOWN_FINDINGS.txt."
 )
 ENGINES = [
+    {"name": "Lineage", "path": "spec/Lineage.tla", "serves_properties": ["C17"],
+     "kind_free_text": "builder of view DAGs (select/star/column-list alias/scalar subquery/positional set operation) with the denotational meaning of 'flows into' (LineageSem.Out) checked against dependency-graph reachability; LineageTrace.tla is the acceptor for recorded lineage() runs"},
     {"name": "Scope", "path": "spec/Scope.tla", "serves_properties": ["C10"],
      "kind_free_text": "identifier normalisation over case classes x strategies (Idempotent, Untouched as ASSUMEs checked by TLC), the scoping rules, and the generator of query skeletons; QualifyTrace.tla is the acceptor for recorded qualify() runs"},
     {"name": "ErrLevel", "path": "spec/ErrLevel.tla", "serves_properties": ["C14"],
@@ -31,6 +33,13 @@ ENGINES = [
      "kind_free_text": "TLA+ model of the mutable Expression tree (node store, every branch of set/append/replace/pop, hash cache, deepcopy); TLC exhaustive + transition emission; AstTrace.tla evaluates the invariants on recorded real trees"},
 ]
 CHECKS = {
+    "C17": {
+        "engine": "Lineage",
+        "design_ref": "DESIGN.md section 5, C17",
+        "technique": "TLA+ model of view DAGs and of column flow (denotational Out = graph reachability, checked by TLC); TLC-derived DAGs rendered in up to 6 presentations x 4 alias schemes; leaves reported by sqlglot.lineage validated by the TLA+ acceptor LineageTrace",
+        "text": "All DAGs of one definition (2 FROM entries, 2 items, 2 reads + scalar subquery, stars, unions; a 1/12 hash slice per quick run, all in thorough), all two-definition chains of the small bound (thorough) and 2800 (quick) / 24000 (thorough) simulated derivations of up to 4 definitions; each written as derived tables, hoisted CTEs, nested WITH, CTE with reference-level column list, sources= and sources= under a qualified name, with 4 alias schemes, queried per column, for all columns at once (shared cache) and untrimmed. Clauses: Raised, Names, Unresolved, Missing, Extra per output column.",
+        "note": "Trusted: the renderer in props/c17.py (it never computes leaves; the acceptor does). Correlated scalar subqueries, pivots, UDTFs and join/WHERE conditions are outside the term language.",
+    },
     "C10": {
         "engine": "Scope",
         "design_ref": "DESIGN.md section 5, C10",
